@@ -24,9 +24,12 @@
  * Part 5 (sessions): every sequence of 2..3 (thorough: 4) receptions out of
  * good requests, corrupted frames of every class and channel-level failures.
  * After a channel failure that regp_recv reported (negative return) a round in
- * which regp_recv < 0 took no octet off the line is judged like a channel
+ * which regp_recv again returns a negative value is judged like a channel
  * failure (an instance may latch the failure until a channel is installed
- * again; it never saw the frame it would have to classify).
+ * again, a framing layer may resynchronise at the next frame boundary; no frame
+ * was handed over that it would have to classify).  The two valid requests that
+ * a receiver taking a frame into one allocator block cannot receive (no block /
+ * larger than the block) are judged by what the library reports.
  * Part 6 (what the library itself puts on a serial line): every frame kind the
  * library emits (requests, responses to every backend verdict), then every
  * single-bit flip, two-bit flip in octets >= 2 and truncation: a frame that
@@ -43,7 +46,11 @@
  * The receiver's verdict is "valid" (error.id 0) or "faulty" (any other
  * error.id: the statement names the classes, not the numbers); which class it
  * means is read off the prescribed message (meta message 1/2, response code
- * 3/2), which must be one the reference admits.  The allocator ledger is C09's
+ * 3/2), which must be one the reference admits; for header faults the meta
+ * message is owed on a serial channel by requests and by frames whose header
+ * cannot be trusted ("classified, nothing sent" is admitted on the
+ * length-prefix transport and for intact response/meta frames: doc 2.1).  The
+ * allocator ledger is C09's
  * subject: only a release of something that is no live block is reported.
  */
 #include "mc.h"
@@ -129,9 +136,16 @@ frame_vset(bool tcp, const unsigned char *X, size_t n, struct rframe *rf)
      * bad header encoding only. */
     if (n >= 12 && !(vset & RV_OK) && rf->hdrlen == 0 && (rf->options & RO_HDCRC))
         vset |= RV_BADHDRCRC;
+    /* ... but its first octet is: with at least the first header word there and the
+     * header-checksum bit set in it, "the header checksum cannot be verified" is
+     * as good a description of a frame that ends before its checksum word */
+    if (n >= 2 && n < 12 && (X[0] & RO_HDCRC))
+        vset |= RV_BADHDRCRC;
     /* transport-mandated option bits: the document could be read as making a
-     * violation a header encoding error; the receiver may take either view */
-    if (vset & RV_OK) {
+     * violation a header encoding error; the receiver may take either view, and
+     * the document does not order this test against the others either (a receiver
+     * may look at the option bits before it looks at the payload) */
+    if (n >= 12) {
         const bool mand_ok = tcp ? !(rf->options & (RO_HDCRC | RO_PLCRC))
                                  : ((rf->options & RO_HDCRC) && (((rf->options & RO_PLCRC) != 0) == (rf->plen != 0)));
         if (!mand_ok)
@@ -245,6 +259,9 @@ judge(bool tcp, const struct rframe *rf, unsigned vset, const struct lp_result *
     /* the class the receiver means, shown by the message the statement prescribes for it */
     const bool isreq = rf->type == RT_READ_REQ || rf->type == RT_WRITE_REQ;
     const unsigned hdrfaults = faults & (RV_BADHDR | RV_BADHDRCRC), plfaults = faults & (RV_BADSIZE | RV_BADPLCRC);
+    /* a response or meta frame (as far as its first header word says; fewer than 12 octets
+     * leave rf zeroed = request) whose header checksum verifies or is not declared */
+    const bool intact_nonreq = (rf->type == RT_READ_RESP || rf->type == RT_WRITE_RESP || rf->type == RT_META) && !(faults & RV_BADHDRCRC);
     const unsigned shown = reply_class(reply, nfr);
     unsigned cls;
     if (shown) {
@@ -264,6 +281,14 @@ judge(bool tcp, const struct rframe *rf, unsigned vset, const struct lp_result *
         cls = shown;
     } else if (nfr == 0 && r->out1 == r->out0 && !isreq && plfaults) {
         cls = plfaults & -plfaults; /* payload fault of a non-request: no message is owed, the class is not shown */
+    } else if (nfr == 0 && r->out1 == r->out0 && hdrfaults && (tcp || (intact_nonreq && !plfaults))) {
+        /* The meta-message sentence of the statement is scoped "on a serial channel",
+         * and doc/regp.txt 2.1 says that problems in response or meta messages shall
+         * not be met with another response: on the length-prefix transport, and for a
+         * response or meta frame whose header can be trusted (its header checksum
+         * verifies, or it declares none), "classified, nothing sent" is admitted.
+         * The class is not shown. */
+        cls = hdrfaults & -hdrfaults;
     } else {
         const bool want_pl = !hdrfaults;
         mc_fail(want_pl ? "C07/payload-fault-reply" : "C07/header-fault-meta-reply",
@@ -915,6 +940,7 @@ struct sitem {
     long src_err_at;
     int src_err;
     bool alloc_fails; /* every allocation of the round is refused */
+    bool valid_req;   /* the line delivers a request that is valid by the reference, whole */
 };
 #define MAXSITEMS 24
 static struct sitem sitems[2][MAXSITEMS];
@@ -990,12 +1016,16 @@ build_sitems(bool tcp)
     snprintf(it[n].name, sizeof it[n].name, "nothing arrives");
     it[n].wn = 0;
     n++;
-    /* receptions that fail for want of memory (no block / frame larger than the block): no frame
-     * is handed over; judged like a channel failure (their replies are C09's subject) */
+    /* receptions that fail for want of memory in a receiver that takes a frame into one allocator
+     * block (no block / frame larger than the block): if the library reports that reception failed
+     * they are judged like a channel failure (their replies are C09's subject); a receiver that
+     * reports the request as received (reserve block, growing block) has received a valid frame,
+     * and executing valid frames is C06's subject */
     it[n].kind = SK_CHAN;
     snprintf(it[n].name, sizeof it[n].name, "good write while allocation fails");
     it[n].wn = good_request(tcp, m16, it[n].wire);
     it[n].alloc_fails = true;
+    it[n].valid_req = true;
     n++;
     {
         static unsigned char big[BLOCKSIZE + 40], raw[BLOCKSIZE + 60];
@@ -1011,9 +1041,12 @@ build_sitems(bool tcp)
         f.payload = big;
         f.plen = sizeof big;
         const size_t rn = rr_build(raw, &f, false, false);
+        struct rframe chk;
+        MC_ANCHOR(rr_verdict(raw, rn, &chk) == RV_OK, "session item: the write larger than the block is valid by the reference");
         it[n].kind = SK_CHAN;
         snprintf(it[n].name, sizeof it[n].name, "good write larger than the block");
         it[n].wn = tcp ? rr_lenprefix(it[n].wire, raw, rn) : rr_slip(it[n].wire, raw, rn);
+        it[n].valid_req = true;
         n++;
     }
     if (!tcp) {
@@ -1071,20 +1104,24 @@ part5(void)
                                 mc_log("%s: recv rc=%d error.id=%d process rc=%d calls=%d reply=%zu octets", fd, r.rrc, r.errid, r.prc, r.calls, D.outlen);
                             /* After a channel failure that regp_recv reported (hard source error,
                              * framing violation: negative return) an instance may latch the failure
-                             * and refuse reception until the caller installs a channel again: a
-                             * round in which regp_recv < 0 took no octet off the line never saw the
-                             * frame, so there is nothing it could classify.  Judged like a channel
-                             * failure: not executed, not acknowledged, ledger. */
-                            const bool unread = chan_failed && x->wn > 0 && r.rrc < 0 && D.inpos == 0;
+                             * and refuse reception until the caller installs a channel again, and a
+                             * framing layer may resynchronise at the next frame boundary and so lose
+                             * the frame that follows: a round in which regp_recv < 0 again reports a
+                             * channel failure handed no frame over, so there is nothing to classify.
+                             * Judged like a channel failure: not executed, not acknowledged, ledger. */
+                            const bool unread = chan_failed && x->wn > 0 && r.rrc < 0;
                             if (r.rrc < 0)
                                 chan_failed = true;
                             if (unread && mc.verbose && mc.active)
-                                mc_log("%s: reception refused without taking an octet off the line (after an earlier reported channel failure): judged like a channel failure", fd);
+                                mc_log("%s: regp_recv reports a channel failure again (after an earlier reported channel failure): judged like a channel failure", fd);
                             if (x->kind == SK_BAD && !unread) {
                                 struct rframe rf;
                                 const unsigned vset = frame_vset(tcp, x->raw, x->rn, &rf);
                                 ok = judge(tcp, &rf, vset, &r, false, fd);
                                 hasfail = true;
+                            } else if (x->valid_req && !unread && r.rrc >= 0 && r.errid == 0 && r.hadframe) {
+                                /* a valid request that the library reports as received: nothing of C07's applies */
+                                n_valid++;
                             } else if (x->kind == SK_CHAN || unread) {
                                 unsigned char scratch[DRV_WIRE];
                                 struct rframe reply[8];
